@@ -1,0 +1,10 @@
+//go:build !verif
+
+package dnsmsg
+
+const verifOn = false
+
+type verifMsgState struct{}
+
+func verifNewMsg() *Msg      { return nil }
+func verifReleaseMsg(m *Msg) {}
